@@ -296,13 +296,24 @@ func c19(c *ctx) {
 	// ------------------------------------------------------------------ R4
 	r.Rule("R4", "AGREE+WHO", "critical decoders: lib.Unmarshal and rejectUnknownForCriticalMessages list the same critical types, including Block, Transaction and QuorumCertificate; raw protobuf decoders are called only at the audited sites", 6)
 	unmarshal := c.fn("lib.Unmarshal")
-	reject := c.fn("lib.rejectUnknownForCriticalMessages")
-	if unmarshal != nil && reject != nil {
-		a, b := c.p.typeSwitchOf(unmarshal), c.p.typeSwitchOf(reject)
-		if a == nil || b == nil {
+	// the unknown-field walk is reached through a second type switch (rejectUnknownForCriticalMessages) or, if that helper
+	// was folded into Unmarshal, directly
+	reject := c.fnQuiet("lib.rejectUnknownForCriticalMessages")
+	walk := c.fn("lib.detectUnknownProtoFields")
+	if unmarshal != nil && (reject != nil || walk != nil) {
+		a := c.p.typeSwitchOf(unmarshal)
+		var b *switchInfo
+		if reject != nil {
+			b = c.p.typeSwitchOf(reject)
+		}
+		if a == nil || (reject != nil && b == nil) {
 			r.Unk("R4/critical-lists", c.p.Pos(unmarshal.Pos()), "could not find the critical-type switches")
 		} else {
-			c.setsEqual("R4", "lib.Unmarshal", caseNames(a), "rejectUnknownForCriticalMessages", caseNames(b), c.p.Pos(unmarshal.Pos()))
+			if b != nil {
+				c.setsEqual("R4", "lib.Unmarshal", caseNames(a), "rejectUnknownForCriticalMessages", caseNames(b), c.p.Pos(unmarshal.Pos()))
+			} else {
+				r.OK("R4/critical-lists/single", c.p.Pos(unmarshal.Pos()), "one critical-type list: the unknown-field walk is called from lib.Unmarshal itself")
+			}
 			for _, must := range []string{"*lib.Block", "*lib.Transaction", "*lib.QuorumCertificate"} {
 				found := false
 				for _, n := range caseNames(a) {
@@ -316,7 +327,11 @@ func c19(c *ctx) {
 		// the strict path: preflight before decoding, unknown-field walk after
 		pre := c.fn("lib.preflightProtoBytes")
 		if pre != nil {
-			c.mpt(mptSpec{rule: "R4", fn: unmarshal, events: evSet{"preflight": {pre}, "rejectUnknown": {reject}},
+			strict := reject
+			if strict == nil {
+				strict = walk
+			}
+			c.mpt(mptSpec{rule: "R4", fn: unmarshal, events: evSet{"preflight": {pre}, "rejectUnknown": {strict}},
 				atom: func(v ssa.Value) (string, bool) {
 					if ph, ok := v.(*ssa.Phi); ok && isBoolType(ph.Type()) {
 						return "", false
